@@ -1,7 +1,8 @@
 import H2V.Model.ConnStreams
 /-
   Connection-level model, part 9 — mirror of `src/proto/connection.rs`, `settings.rs`,
-  `ping_pong.rs`, `go_away.rs` and of `client::Connection::poll` / `handshake2` (`src/client.rs`).
+  `ping_pong.rs`, `go_away.rs`, of `client::Connection::poll` / `handshake2` (`src/client.rs`) and of
+  the server handshake and shutdown calls (`src/server.rs`).
   I/O errors of the scripted transport are `io::ErrorKind` names without payload.
 -/
 namespace H2V.Model.Conn
@@ -463,7 +464,7 @@ def recvFrame (c : Conn) (frame : Option Frame.Frame) : Conn × Except PErr Rece
   | some (.headers sid eos _ blk) => lift (c.streams.recvHeaders (headersIn sid eos blk))
   | some (.data sid payload eos padLen) => lift (c.streams.recvData sid payload eos padLen)
   | some (.reset sid code) => lift (c.streams.recvReset sid code)
-  | some (.pushPromise ..) => (c.unsup "PUSH_PROMISE", .ok .continue)
+  | some (.pushPromise sid promised blk) => lift (c.streams.recvPushPromise sid (headersIn promised false blk))
   | some (.settings ack vals) => (c, .ok (.settings ack vals))
   | some (.goAway last code debug) =>
     match c.streams.recvGoAwayFrame last code debug with
